@@ -332,7 +332,7 @@ class USBInTransferManager(Elaboratable):
                     m.next = "WAIT_FOR_DATA"
 
                 # If the host does ACK...
-                with m.Elif(self.handshakes_in.ack):
+                with m.Elif(self.handshakes_in.ack & self.active & self.tokenizer.is_in):
                     # ... clear the data we've sent from our buffer.
                     m.d.usb += read_fill_count.eq(0)
 
